@@ -608,6 +608,85 @@ def check_wrappers(desc, ctx):
 
 
 # ---------------------------------------------------------------------------------------------------------------------
+# wrappers on a chosen branch: the helpers must hand their `branch` argument to the point calculation
+@st.composite
+def strat_wrappers_branch(draw):
+    which = draw(st.sampled_from(["fraction", "svp", "vle"]))
+    comps = []
+    for _ in range(2):
+        comps.append({"K_ads": draw(_lg(0.05, 20.0)), "n_ads": draw(_lg(0.5, 10.0)),
+                      "K_des": draw(_lg(0.05, 20.0)), "n_des": draw(_lg(0.5, 10.0)), "npts": draw(st.integers(12, 40))})
+    d = {"which": which, "comps": comps, "branch": draw(st.sampled_from(["des", "des", "ads"]))}
+    y1 = draw(st.floats(0.1, 0.9))
+    d["y"] = [y1, 1.0 - y1]
+    d["P"] = draw(_lg(0.05, 5.0))
+    d["pressures"] = [draw(_lg(0.05, 5.0)) for _ in range(draw(st.integers(1, 3)))]
+    d["npoints"] = draw(st.integers(2, 5))
+    return d
+
+
+def _hysteretic_point_isotherm(c, j):
+    """Point isotherm with an adsorption leg on one Langmuir curve and a desorption leg on another (hysteresis)."""
+    import pandas as pd
+    p_ads = np.geomspace(1e-3, 50.0, c["npts"])
+    p_des = p_ads[::-1][1:]
+    n_ads = c["n_ads"] * c["K_ads"] * p_ads / (1 + c["K_ads"] * p_ads)
+    n_des = c["n_des"] * c["K_des"] * p_des / (1 + c["K_des"] * p_des)
+    df = pd.DataFrame({"pressure": np.concatenate([p_ads, p_des]), "loading": np.concatenate([n_ads, n_des]),
+                       "branch": [0] * len(p_ads) + [1] * len(p_des)})
+    return pygaps.PointIsotherm(isotherm_data=df, pressure_key="pressure", loading_key="loading", material="m-c13",
+                                adsorbate=["methane", "ethane", "propane", "nitrogen"][j], temperature=298.0,
+                                pressure_mode="absolute", pressure_unit="bar", loading_basis="molar", loading_unit="mmol",
+                                material_basis="mass", material_unit="g", temperature_unit="K")
+
+
+def check_wrappers_branch(desc, ctx):
+    which, branch = desc["which"], desc["branch"]
+    y, P = desc["y"], desc["P"]
+
+    def isos():
+        return [_hysteretic_point_isotherm(c, j) for j, c in enumerate(desc["comps"])]
+
+    def point(yv, Pv, br):
+        return np.asarray(call(pgiast.iast_point, ctx, isos(), np.asarray(yv) * Pv, branch=br, warningoff=True), dtype=float)
+
+    if which == "fraction":
+        got = np.asarray(call(pgiast.iast_point_fraction, ctx, isos(), list(y), P, branch=branch, warningoff=True), dtype=float)
+        want = point(y, P, branch)
+        if not np.array_equal(got, want, equal_nan=True):
+            raise Violation(f"iast_point_fraction(y={y}, P={P}, branch={branch!r}) = {_fmt(got)} but iast_point(y*P, "
+                            f"branch={branch!r}) = {_fmt(want)}", tag="wrapper_fraction_branch")
+    elif which == "svp":
+        if sum(y) != 1:
+            ctx.label("fractions_not_exactly_one")
+            return
+        res = call(pgiast.iast_binary_svp, ctx, isos(), list(y), list(desc["pressures"]), branch=branch, warningoff=True)
+        want = []
+        for Pv in desc["pressures"]:
+            l = point(y, Pv, branch)
+            want.append((l[0] / y[0]) / (l[1] / y[1]))
+        got = np.asarray(res["selectivity"], dtype=float)
+        if not np.array_equal(got, np.asarray(want), equal_nan=True):
+            raise Violation(f"iast_binary_svp(y={y}, pressures={desc['pressures']}, branch={branch!r}) selectivity {_fmt(got)} "
+                            f"but the point calculation on that branch gives {_fmt(want)}", tag="wrapper_svp_branch")
+    else:
+        res = call(pgiast.iast_binary_vle, ctx, isos(), P, npoints=desc["npoints"], branch=branch, warningoff=True)
+        ys = np.linspace(0.01, 0.99, desc["npoints"])
+        want_x = [0.0]
+        for yv in ys:
+            l = point([yv, 1 - yv], P, branch)
+            want_x.append(l[0] / (l[0] + l[1]))
+        want_x.append(1.0)
+        gx = np.asarray(res["x"], dtype=float)
+        if not np.array_equal(gx, np.asarray(want_x), equal_nan=True):
+            raise Violation(f"iast_binary_vle(P={P}, npoints={desc['npoints']}, branch={branch!r}) x={_fmt(gx)} but the point "
+                            f"calculation on that branch gives {_fmt(want_x)}", tag="wrapper_vle_branch")
+    ctx.label(which, "branch:" + branch)
+    if branch == "des":
+        ctx.nt(desc, desc)
+
+
+# ---------------------------------------------------------------------------------------------------------------------
 # known finding (open): scipy root(method='lm') reports success at a stationary point of |residual|^2 that is not a
 # root (or stops on its step tolerance far from the root); the library never checks the residual. Every observed
 # instance has a trace mole fraction (< 1e-4) either in the true solution or in the point lm stopped at (the last
@@ -632,4 +711,6 @@ CHECKS = [
           rule="reverse_iast satisfies the equations; iast_point_fraction(reverse_iast(x)) = x; reverse(forward) = y"),
     Check("wrappers", check_wrappers, strategy=strat_wrappers, budget={"quick": 900, "thorough": 5000},
           rule="iast_point_fraction / iast_binary_svp / iast_binary_vle bit-equal to iast_point"),
+    Check("wrappers_branch", check_wrappers_branch, strategy=strat_wrappers_branch, budget={"quick": 400, "thorough": 3000},
+          rule="the same helpers on hysteretic point isotherms with branch='des' / 'ads': bit-equal to iast_point on that branch"),
 ]
